@@ -321,6 +321,42 @@ class Zygote:
                 pass
 
 
+class ZygotePool:
+    """several zygotes, used round-robin: a fork of the (large) androguard image costs tens to hundreds of ms of kernel time and one
+    zygote forks sequentially"""
+
+    def __init__(self, n, cwd, env=None):
+        self.zs = []
+        try:
+            for i in range(n):
+                d = os.path.join(cwd, "z%d" % i)
+                os.mkdir(d)
+                self.zs.append(Zygote(d, env))
+        except BaseException:
+            self.close()
+            raise
+        self.info = self.zs[0].info
+        self._n = 0
+        self._lock = threading.Lock()
+
+    @property
+    def spawned(self):
+        return sum(z.spawned for z in self.zs)
+
+    def spawn(self, cfg):
+        with self._lock:
+            self._n += 1
+            z = self.zs[self._n % len(self.zs)]
+        return z.spawn(cfg)
+
+    def close(self):
+        for z in self.zs:
+            try:
+                z.close()
+            except Exception:
+                pass
+
+
 _sock_counter = [0]
 _sock_lock = threading.Lock()
 
@@ -398,10 +434,11 @@ def run_schedule(zy, sockdir, k, db_url, points, chooser, timeout=60):
     try:
         g = _Group(zy, sockdir, cfgs, timeout)
         at = {}
-        # start barrier: release every child in turn up to its first pause point (nothing of the real code that touches the
-        # database runs before the first point: dataset.connect() is lazy)
+        # start: every child runs up to its first pause point (nothing of the real code touches the database before the
+        # first point: dataset.connect() only builds a lazy engine, the first connection is made inside Table.__len__)
         for i in range(k):
             g.chans[i].send({"cmd": "go"})
+        for i in range(k):
             m = g.recv(i)
             if m is None:
                 out["results"][i] = {"ev": "exit", "session_id": None, "exc": "child died before the first point", "exc_type": "ChildDied", "log": []}
